@@ -110,7 +110,7 @@ def render_task(spec, funcs, blocklines):
     last_with_line = None
     pending_line = None
     for i, nz in enumerate(nzs):
-        if via == "acm" and i == 0:
+        if via in ("acm", "acm_unwrap") and i == 0:
             last_with_line = emit(ind, "async with %s_cm() as n%d:" % (name, i))
         elif via == "exitstack" and i == 0 and (len(nzs) >= 2 or spec.get("block") != "aexit"):
             # the nursery is entered through an AsyncExitStack: it shows up as a child context of the stack's context
@@ -187,7 +187,7 @@ def render_task(spec, funcs, blocklines):
     else:
         ln = emit(ind, "await trio.sleep_forever()")
         blocklines[tid] = ("body", ln)
-    if via == "acm":
+    if via in ("acm", "acm_unwrap"):
         emit(0, "@asynccontextmanager")
         emit(0, "async def %s_cm():" % name)
         cm_with = emit(1, "async with trio.open_nursery() as inner:")
@@ -202,10 +202,19 @@ def render_task(spec, funcs, blocklines):
     ns = {"trio": trio, "FUNCS": funcs, "asynccontextmanager": asynccontextmanager, "AsyncExitStack": AsyncExitStack,
           "__name__": "c14tasks"}
     exec(compile(src, fname, "exec"), ns)
+    if via == "acm_unwrap":
+        # a hook of the kind the pytest-trio glue has: the generator-based manager stands for the nursery it opens
+        stackscope.unwrap_context_generator.register(ns[name + "_cm"])(_unwrap_to_first_context)
     funcs[name] = ns[name]
     funcs[name + ":file"] = fname
     funcs[name + ":via"] = via
     return name
+
+
+def _unwrap_to_first_context(frame, context):
+    if context.is_exiting:
+        return None      # (the generator's frames, with the nursery's own context, are in the main series then)
+    return frame.contexts[0].obj if frame.contexts else None
 
 
 def nursery_contexts(stack, out):
